@@ -374,6 +374,12 @@ def load_corpus():
 
 
 def replay(run, data):
+    import sys
+    import core
+    # the model reads facts regenerated from the tree: bring them up to date first
+    core.build_proofs(run, sys.modules[__name__])
+    if not run.proof["ok"]:
+        return False
     d = data["data"]
     text = lc.decompress(d["input"])
     toks, end, out = observe(text)
